@@ -1061,6 +1061,13 @@ _dispatch_operation_create(dispatch_op_direction_t direction,
 	// that can only be NULL if atomic_flags are set rdar://problem/8362514
 	int err = _dispatch_io_get_error(NULL, channel, false);
 	if (err || !length) {
+		// A zero-length operation on an open channel has no operation object
+		// to hold the fd_entry: hold it until the handler has run, so that the
+		// cleanup handler cannot run first
+		dispatch_fd_entry_t fd_entry = err ? NULL : channel->fd_entry;
+		if (fd_entry) {
+			_dispatch_fd_entry_retain(fd_entry);
+		}
 		_dispatch_io_data_retain(data);
 		_dispatch_retain(queue);
 		_dispatch_retain(channel);
@@ -1075,6 +1082,9 @@ _dispatch_operation_create(dispatch_op_direction_t direction,
 				_dispatch_channel_debug("IO handler invoke: err %d", channel,
 						err);
 				handler(true, d, err);
+				if (fd_entry) {
+					_dispatch_fd_entry_release(fd_entry);
+				}
 				_dispatch_release(channel);
 				_dispatch_io_data_release(data);
 			});
